@@ -270,7 +270,7 @@ func (ir *ifdReader) ParseSubSecTime(t Tag) uint16 {
 func (ir *ifdReader) parseLensInfo(t Tag) LensInfo {
 	if !t.IsEmbedded() {
 		buf, err := ir.readTagValue(t)
-		if err != nil {
+		if err != nil || len(buf) < 32 {
 			return LensInfo{}
 		}
 		return LensInfo{
